@@ -109,9 +109,15 @@ func interp(script []Step, skipUngiven bool) (obs []Obs) {
 	for i := range pool {
 		pool[i] = vlib.NewRec(log, i, i) // kinds cycle: plain, closer, level-settable, closer+level-settable, plain, closer
 	}
+	// pool member 4 is handed over as the handle slog.NewLogWriter returns for it (the same handle in every
+	// operation): a writer a user registers - and later removes - through the package's own wrapper
+	handle4 := slog.NewLogWriter(pool[4].(io.Writer))
 	wr := func(i int) io.Writer {
 		if i == -9 {
 			return nil
+		}
+		if i == 4 {
+			return handle4
 		}
 		return pool[i].(io.Writer)
 	}
